@@ -97,3 +97,17 @@ Theorem C03_model_initial_pair_covers : forall (x1 y1 x2 y2 : list Q) (ps pt : R
   end.
 Proof. exact initial_covers. Qed.
 Print Assumptions C03_model_initial_pair_covers.
+
+(* ... while the Tangent branch is NOT complete (finding F2 as a theorem about the model): the folded vertical segment
+   (1,0), (1,2), (1,1) and the curve (1,5/4), (2,2), (3,5/4) meet at B1(1/2) = B2(0); the initial pair covers that point, is
+   classified Tangent (the boxes touch along x = 1), produces no candidate for the next round and is handed to the end-point
+   comparison only - which cannot find a point that is interior to curve 1 *)
+Theorem C03_tangent_branch_refuted :
+  exists f s, initial f2_x1 f2_y1 f2_x2 f2_y2 = [(f, s)] /\
+    Rounds.lin f = false /\ Rounds.lin s = false /\
+    CoverC (map Q2R f2_x1) (map Q2R f2_y1) f (/ 2)%R /\ CoverC (map Q2R f2_x2) (map Q2R f2_y2) s 0%R /\
+    classify f s = Tangent /\ fst (step_pair (f, s)) = [] /\
+    snd (step_pair (f, s)) = [EvTangent f s] /\
+    B (map Q2R f2_x1) (/ 2)%R = B (map Q2R f2_x2) 0%R /\ B (map Q2R f2_y1) (/ 2)%R = B (map Q2R f2_y2) 0%R.
+Proof. exact tangent_branch_loses_a_common_point. Qed.
+Print Assumptions C03_tangent_branch_refuted.
